@@ -202,6 +202,8 @@ def replay(prop, cfg, ov, names, viol, params, repo, dest):
     except subprocess.TimeoutExpired:
         out = "replay timed out"
     open(os.path.join(dest, "replay.log"), "w").write(out)
+    if viol["kind"] == "hang" and ("goroutine stack exceeds" in out or "stack overflow" in out or "replay timed out" in out or "test timed out" in out):
+        return True, out  # unbounded recursion / no return: the native process died or hung
     return "VF-REPLAY: REPRODUCED" in out, out
 
 
